@@ -562,6 +562,71 @@ var ruleErrorReturns = &core.Rule{ID: "R02.5", Min: 6,
 				}
 			}
 		}
+		// helpers of the entries that return an error themselves (extracted read routines): same discipline
+		seenH := map[*ssa.Function]bool{}
+		var helpers []*ssa.Function
+		var collect func(f *ssa.Function, depth int)
+		collect = func(f *ssa.Function, depth int) {
+			if depth > 3 {
+				return
+			}
+			for _, ci := range core.Calls(f) {
+				g := ci.Common().StaticCallee()
+				if g == nil || !core.InMod(g) || g.Blocks == nil || seenH[g] || isEntry(entries, g) {
+					continue
+				}
+				res := g.Signature.Results()
+				if res.Len() >= 1 && types.Identical(res.At(res.Len()-1).Type(), errT) {
+					seenH[g] = true
+					helpers = append(helpers, g)
+					collect(g, depth+1)
+				}
+			}
+		}
+		for _, f := range entries {
+			collect(f, 0)
+		}
+		for _, h := range helpers {
+			for _, b := range h.Blocks {
+				for _, in := range b.Instrs {
+					ex, ok := in.(*ssa.Extract)
+					if !ok || !types.Identical(ex.Type(), errT) {
+						continue
+					}
+					call, ok := ex.Tuple.(*ssa.Call)
+					if !ok {
+						continue
+					}
+					key := fmt.Sprintf("%s: error of %s", core.FName(h), callOrdinal(call))
+					// a tuple returned as a whole (return io.ReadAll(r)) hands the error back
+					passed := false
+					for _, r := range core.Returns(h) {
+						if n := len(r.Results); n >= 1 && r.Results[n-1] == ssa.Value(ex) {
+							passed = true
+						}
+					}
+					for _, ref := range *ex.Referrers() {
+						if bo, ok := ref.(*ssa.BinOp); ok && !core.IsNilConst(bo.X) && !core.IsNilConst(bo.Y) {
+							other := bo.Y
+							if other == ssa.Value(ex) {
+								other = bo.X
+							}
+							sentinel := ""
+							if g, ok := core.LoadOfGlobal(other); ok && g.Pkg != nil {
+								sentinel = g.Pkg.Pkg.Path() + "." + g.Name()
+							}
+							okExcuse := core.CalleeIs(&call.Call, "io", "ReadFull") && (sentinel == "io.EOF" || sentinel == "io.ErrUnexpectedEOF")
+							s.Check(okExcuse, key+" compared with "+sentinel, c.Pos(bo.Pos()), "end-of-input sentinel of ReadFull", fmt.Sprintf("the error is excused by comparison with %q: only io.EOF and io.ErrUnexpectedEOF from ReadFull mean `input shorter than the limit`", sentinel))
+						}
+					}
+					if why := errPathsDisciplined(ex, h); why != "" {
+						s.Bad(key+": every path to success tests it", c.Pos(ex.Pos()), why)
+					} else {
+						s.OK(key+": every path to success tests it", c.Pos(ex.Pos()), map[bool]string{true: "handed back to the caller", false: "tested on every path to a nil-error return"}[passed])
+					}
+				}
+			}
+		}
 	}}
 
 func isEntry(es []*ssa.Function, g *ssa.Function) bool {
@@ -612,7 +677,7 @@ func errPathsDisciplined(err *ssa.Extract, f *ssa.Function) string {
 		}
 		switch t := b.Instrs[len(b.Instrs)-1].(type) {
 		case *ssa.Return:
-			if len(t.Results) == 2 && spilled(t, 1) == ssa.Value(err) {
+			if n := len(t.Results); n >= 1 && spilled(t, n-1) == ssa.Value(err) {
 				return // the error is handed to the caller
 			}
 			if k == untested || k == nonNil {
@@ -694,72 +759,17 @@ var ruleReader = &core.Rule{ID: "R05.2", Min: 8,
 			core.Bail("entry points not identified (bytes=%v reader=%v file=%v)", bytesEntry != nil, readerEntry != nil, fileEntry != nil)
 		}
 		f := readerEntry
-		r := f.Params[0]
 		var lim *ssa.Call
 		for _, ci := range core.Calls(f) {
-			if h := ci.Common().StaticCallee(); h != nil && h.Pkg != nil && h.Pkg.Pkg.Path() == "sync/atomic" {
-				lim, _ = ci.(*ssa.Call)
+			if call, ok := ci.(*ssa.Call); ok && cm.isLimitSnapshot(call) {
+				lim = call
 			}
 		}
 		if lim == nil {
 			core.Bail("%s does not load the limit atomically", f.Name())
 		}
-		limZeroEdge := func(b *ssa.BasicBlock, wantZero bool) bool {
-			for _, de := range core.DominatingConds(b) {
-				cond, val := core.StripNot(de.Cond, de.Val)
-				bo, ok := cond.(*ssa.BinOp)
-				if !ok || bo.X != ssa.Value(lim) || !core.IsConstInt(bo.Y, 0) {
-					continue
-				}
-				isZero := (bo.Op == token.EQL && val) || (bo.Op == token.NEQ && !val) || (bo.Op == token.GTR && !val) || (bo.Op == token.LEQ && val)
-				isNonZero := (bo.Op == token.EQL && !val) || (bo.Op == token.NEQ && val) || (bo.Op == token.GTR && val) || (bo.Op == token.LEQ && !val)
-				if wantZero && isZero || !wantZero && isNonZero {
-					return true
-				}
-			}
-			return false
-		}
-		var readFull *ssa.Call
-		n := 0
-		for _, ref := range *r.Referrers() {
-			if _, dbg := ref.(*ssa.DebugRef); dbg {
-				continue
-			}
-			n++
-			key := fmt.Sprintf("%s: use #%d of the reader", core.FName(f), n)
-			call, ok := ref.(*ssa.Call)
-			if !ok || call.Call.Args[0] != ssa.Value(r) {
-				s.Bad(key, c.Pos(ref.Pos()), "the reader escapes (stored, wrapped or passed on): reads beyond the limit cannot be excluded")
-				continue
-			}
-			switch {
-			case core.CalleeIs(&call.Call, "io", "ReadAll"):
-				s.Check(limZeroEdge(call.Block(), true), key, c.Pos(call.Pos()), "io.ReadAll confined to limit == 0", "io.ReadAll on the reader is not confined to the limit == 0 branch: it consumes the whole input")
-			case core.CalleeIs(&call.Call, "io", "ReadFull"):
-				readFull = call
-				mk, ok := call.Call.Args[1].(*ssa.MakeSlice)
-				okBuf := ok && mk.Len == ssa.Value(lim) && mk.Cap == ssa.Value(lim)
-				if ok && !okBuf {
-					// allow int(limit)
-					if cv, ok := mk.Len.(*ssa.Convert); ok && cv.X == ssa.Value(lim) && mk.Cap == mk.Len {
-						okBuf = true
-					}
-				}
-				s.Check(okBuf && limZeroEdge(call.Block(), false), key, c.Pos(call.Pos()), "io.ReadFull into make([]byte, limit), limit != 0", "the ReadFull buffer is not exactly make([]byte, limit) with the snapshot limit: more than `limit` bytes may be consumed from the reader")
-			case core.CalleeIs(&call.Call, "io", "LimitReader"):
-				okLim := false
-				if cv, ok := call.Call.Args[1].(*ssa.Convert); ok && cv.X == ssa.Value(lim) {
-					okLim = true
-				}
-				s.Check(okLim, key, c.Pos(call.Pos()), "io.LimitReader(r, limit)", "LimitReader is not bounded by the snapshot limit")
-			default:
-				name := "dynamic call"
-				if g := call.Call.StaticCallee(); g != nil {
-					name = g.String()
-				}
-				s.Bad(key, c.Pos(call.Pos()), fmt.Sprintf("the reader is handed to %s, which is not one of the bounded readers (io.ReadFull into a limit-sized buffer / io.ReadAll iff limit == 0): the bytes consumed are not bounded by the limit", name))
-			}
-		}
+		rc := &readerCheck{c: c, s: s}
+		rc.uses(f, f.Params[0], lim, 0)
 		// the walk's arguments
 		for _, ci := range core.Calls(f) {
 			call, ok := ci.(*ssa.Call)
@@ -767,26 +777,7 @@ var ruleReader = &core.Rule{ID: "R05.2", Min: 8,
 				continue
 			}
 			s.Check(call.Call.Args[2] == ssa.Value(lim), core.FName(f)+": walk limit is the snapshot", c.Pos(call.Pos()), "same value that sized the read", "the walk is given a limit other than the one that sized the read")
-			var edges []ssa.Value
-			if ph, ok := call.Call.Args[1].(*ssa.Phi); ok {
-				edges = ph.Edges
-			} else {
-				edges = []ssa.Value{call.Call.Args[1]}
-			}
-			for i, e := range edges {
-				key := fmt.Sprintf("%s: walk buffer source #%d", core.FName(f), i+1)
-				switch x := e.(type) {
-				case *ssa.Extract:
-					tc, ok := x.Tuple.(*ssa.Call)
-					s.Check(ok && x.Index == 0 && core.CalleeIs(&tc.Call, "io", "ReadAll"), key, c.Pos(x.Pos()), "bytes returned by io.ReadAll", "the walk sees something other than what was read")
-				case *ssa.Slice:
-					nn, ok := x.High.(*ssa.Extract)
-					okCut := ok && x.Low == nil && nn.Index == 0 && readFull != nil && nn.Tuple == ssa.Value(readFull) && x.X == readFull.Call.Args[1]
-					s.Check(okCut, key, c.Pos(x.Pos()), "buf[:n], n returned by ReadFull", "the buffer handed to the walk is not cut to the bytes actually read: zero padding up to the limit would be judged as file content")
-				default:
-					s.Bad(key, c.Pos(call.Pos()), "the walk sees the whole limit-sized buffer or an unrelated value, not buf[:n]")
-				}
-			}
+			rc.buffer(f, call.Call.Args[1], f.Params[0], lim, core.FName(f)+": walk buffer", call.Pos(), 0)
 		}
 		// file entry
 		g := fileEntry
@@ -811,6 +802,139 @@ var ruleReader = &core.Rule{ID: "R05.2", Min: 8,
 		s.Check(okFwd, core.FName(g)+": forwards the opened file to the reader entry", c.Pos(g.Pos()), "DetectReader(f)", "the file entry does not delegate to the reader entry with the opened file")
 		s.Check(okClose, core.FName(g)+": closes the file", c.Pos(g.Pos()), "deferred Close", "the opened file is not closed")
 	}}
+
+// readerCheck verifies reader confinement through helper functions: r is the
+// reader value and lim the snapshot limit as seen in the function at hand.
+type readerCheck struct {
+	c *core.Ctx
+	s *core.Sink
+	n int
+}
+
+func limZeroEdge(b *ssa.BasicBlock, lim ssa.Value, wantZero bool) bool {
+	for _, de := range core.DominatingConds(b) {
+		cond, val := core.StripNot(de.Cond, de.Val)
+		bo, ok := cond.(*ssa.BinOp)
+		if !ok || bo.X != lim || !core.IsConstInt(bo.Y, 0) {
+			continue
+		}
+		isZero := (bo.Op == token.EQL && val) || (bo.Op == token.NEQ && !val) || (bo.Op == token.GTR && !val) || (bo.Op == token.LEQ && val)
+		isNonZero := (bo.Op == token.EQL && !val) || (bo.Op == token.NEQ && val) || (bo.Op == token.GTR && val) || (bo.Op == token.LEQ && !val)
+		if wantZero && isZero || !wantZero && isNonZero {
+			return true
+		}
+	}
+	return false
+}
+
+func (rc *readerCheck) uses(f *ssa.Function, r, lim ssa.Value, depth int) {
+	c, s := rc.c, rc.s
+	for _, ref := range *r.Referrers() {
+		if _, dbg := ref.(*ssa.DebugRef); dbg {
+			continue
+		}
+		rc.n++
+		key := fmt.Sprintf("%s: use #%d of the reader", core.FName(f), rc.n)
+		call, ok := ref.(*ssa.Call)
+		if !ok {
+			s.Bad(key, c.Pos(ref.Pos()), "the reader escapes (stored, wrapped or passed on): reads beyond the limit cannot be excluded")
+			continue
+		}
+		switch {
+		case core.CalleeIs(&call.Call, "io", "ReadAll") && call.Call.Args[0] == r:
+			s.Check(limZeroEdge(call.Block(), lim, true), key, c.Pos(call.Pos()), "io.ReadAll confined to limit == 0", "io.ReadAll on the reader is not confined to the limit == 0 branch: it consumes the whole input")
+		case core.CalleeIs(&call.Call, "io", "ReadFull") && call.Call.Args[0] == r:
+			mk, ok := call.Call.Args[1].(*ssa.MakeSlice)
+			okBuf := ok && mk.Len == lim && mk.Cap == lim
+			if ok && !okBuf {
+				if cv, ok := mk.Len.(*ssa.Convert); ok && cv.X == lim && mk.Cap == mk.Len {
+					okBuf = true
+				}
+			}
+			s.Check(okBuf && limZeroEdge(call.Block(), lim, false), key, c.Pos(call.Pos()), "io.ReadFull into make([]byte, limit), limit != 0", "the ReadFull buffer is not exactly make([]byte, limit) with the snapshot limit: more than `limit` bytes may be consumed from the reader")
+		case core.CalleeIs(&call.Call, "io", "LimitReader") && call.Call.Args[0] == r:
+			okLim := false
+			if cv, ok := call.Call.Args[1].(*ssa.Convert); ok && cv.X == lim {
+				okLim = true
+			}
+			s.Check(okLim, key, c.Pos(call.Pos()), "io.LimitReader(r, limit)", "LimitReader is not bounded by the snapshot limit")
+		default:
+			g := call.Call.StaticCallee()
+			if g != nil && core.InMod(g) && g.Blocks != nil && depth < 3 {
+				ri, li := -1, -1
+				for i, a := range call.Call.Args {
+					if a == r {
+						ri = i
+					}
+					if a == lim {
+						li = i
+					}
+				}
+				if ri >= 0 && li >= 0 {
+					s.OK(key, c.Pos(call.Pos()), "handed with the snapshot limit to helper "+g.Name()+" (checked below)")
+					rc.uses(g, g.Params[ri], g.Params[li], depth+1)
+					continue
+				}
+			}
+			name := "dynamic call"
+			if g != nil {
+				name = g.String()
+			}
+			s.Bad(key, c.Pos(call.Pos()), fmt.Sprintf("the reader is handed to %s, which is not one of the bounded readers (io.ReadFull into a limit-sized buffer / io.ReadAll iff limit == 0, possibly through a helper that receives the snapshot limit): the bytes consumed are not bounded by the limit", name))
+		}
+	}
+}
+
+// buffer: v is what was read from r: ReadAll's result, buf[:n] of ReadFull, a
+// phi of those, or the first result of a helper all of whose returns are such.
+func (rc *readerCheck) buffer(f *ssa.Function, v, r, lim ssa.Value, key string, pos token.Pos, depth int) {
+	c, s := rc.c, rc.s
+	switch x := v.(type) {
+	case *ssa.Phi:
+		for i, e := range x.Edges {
+			rc.buffer(f, e, r, lim, fmt.Sprintf("%s source #%d", key, i+1), pos, depth)
+		}
+	case *ssa.Const:
+		s.Check(x.Value == nil, key, c.Pos(pos), "nil (error path)", "constant buffer")
+	case *ssa.Slice:
+		nn, ok := x.High.(*ssa.Extract)
+		okCut := false
+		if ok && x.Low == nil && nn.Index == 0 {
+			if rf, ok := nn.Tuple.(*ssa.Call); ok && core.CalleeIs(&rf.Call, "io", "ReadFull") && rf.Call.Args[0] == r && x.X == rf.Call.Args[1] {
+				okCut = true
+			}
+		}
+		s.Check(okCut, key, c.Pos(x.Pos()), "buf[:n], n returned by ReadFull", "the buffer handed to the walk is not cut to the bytes actually read: zero padding up to the limit would be judged as file content")
+	case *ssa.Extract:
+		tc, ok := x.Tuple.(*ssa.Call)
+		if ok && x.Index == 0 && core.CalleeIs(&tc.Call, "io", "ReadAll") && tc.Call.Args[0] == r {
+			s.OK(key, c.Pos(x.Pos()), "bytes returned by io.ReadAll")
+			return
+		}
+		if ok && x.Index == 0 && depth < 3 {
+			if g := tc.Call.StaticCallee(); g != nil && core.InMod(g) && g.Blocks != nil {
+				ri, li := -1, -1
+				for i, a := range tc.Call.Args {
+					if a == r {
+						ri = i
+					}
+					if a == lim {
+						li = i
+					}
+				}
+				if ri >= 0 && li >= 0 {
+					for _, ret := range core.Returns(g) {
+						rc.buffer(g, ret.Results[0], g.Params[ri], g.Params[li], fmt.Sprintf("%s via %s %s", key, g.Name(), returnOrdinal(ret)), ret.Pos(), depth+1)
+					}
+					return
+				}
+			}
+		}
+		s.Bad(key, c.Pos(x.Pos()), "the walk sees something other than what was read")
+	default:
+		s.Bad(key, c.Pos(pos), "the walk sees the whole limit-sized buffer or an unrelated value, not buf[:n]")
+	}
+}
 
 // R04.1 limit slicing in the bytes entry
 var ruleLimitSlice = &core.Rule{ID: "R04.1", Min: 5,
